@@ -295,7 +295,7 @@ def initOn : F α → Except PyErr (OnSt α)
   | .un _ φ => do pure (.un (← initOn φ))
   | .bin op φ ψ => do
       match op with
-      | .predSat _ | .predZero => .error .other
+      | .predZero => .error .other          -- the vacuity override needs the comparison operator: not mirrored
       | _ => pure (.bin {} (← initOn φ) (← initOn ψ))
   | .tmp1 op φ => do
       match op with
@@ -331,6 +331,13 @@ def stepOn (cfg : DCfg) (inp : String → ASig α) : F α → OnSt α → Except
       | .pred c =>
           let (st', d) ← binUpdate (fun a b => Val.sub a b) st sl sr
           pure (.bin st' l' r', d.map (fun p => (p.1, cmpOfDiff c p.2)))
+      | .predSat c =>
+          -- the interface-aware `PredicateOperation.update` for an insensitive predicate (robustness semantics): `sat()` of the
+          -- subtraction output — the positions where the robustness value changes, and the last — as `±inf`
+          let (st', d) ← binUpdate (fun a b => Val.sub a b) st sl sr
+          let both := dedupGoK (fun (x : α × Bool) => x.1) none (d.map (fun p => (p.1, (cmpOfDiff c p.2, satOfDiff c p.2))))
+          pure (.bin st' l' r', both.map (fun p => (p.1, if p.2.2 then Val.pinf else Val.ninf)))
+      | .predZero => .error .other
       | .mul =>
           let (st', o) ← binUpdateNL op.app st sl sr
           pure (.bin st' l' r', o)
